@@ -3,3 +3,4 @@ import UmapProps.C02
 import UmapProps.C19
 import UmapProps.C20
 import UmapProps.C10
+import UmapProps.C07
